@@ -42,10 +42,13 @@ def det(a: PolyLike) -> ndpoly:
             a[index + (0, 0)] * a[index + (1, 1)]
             - a[index + (1, 0)] * a[index + (0, 1)]
         )
+    if dims == 1:
+        return a[index + (0, 0)]
+    # Laplace expansion along the first row
     out = numpoly.zeros_like(a, shape=a.shape[:-2])
-    r = numpy.arange(1, dims, dtype=int)
     for idx in range(dims):
         idx0 = index + (0, idx)
-        idx1 = index + (slice(1, None), (r + idx) % dims)
-        out = out + a[idx0] * det(a[idx1])
+        columns = [column for column in range(dims) if column != idx]
+        idx1 = index + (slice(1, None), columns)
+        out = out + (-1) ** idx * a[idx0] * det(a[idx1])
     return out
